@@ -177,21 +177,33 @@ func (ps *protoSpec) specVerify(eWant *pt, pubx, puby, r, s *pt) {
 		if c.neg {
 			op = negOp[op]
 		}
-		X, Y := c.a, c.b
-		if Y.String() != pVal(r).String() {
-			X, Y = Y, X
-		}
-		if op != token.EQL || Y.String() != pVal(r).String() {
+		if op != token.EQL {
 			ps.need("VERIFY-VERDICT", false, "the verdict is %s; required: ((e + x1) mod n) == r", ps.d.show(o.st, o.vals[0]))
 			continue
 		}
-		ax := findSub(X, "affx")
+		ax := findSub(c.a, "affx")
+		if ax == nil {
+			ax = findSub(c.b, "affx")
+		}
 		if ax == nil {
 			ps.need("VERIFY-VERDICT", false, "the verdict %s does not involve the affine x coordinate of [s]G+[t]P", ps.d.show(o.st, o.vals[0]))
 			continue
 		}
-		want := polyOf(pAdd(pVal(eWant), ax))
-		ps.need("VERIFY-VERDICT", ps.residueOf(o, X, want), "the compared value %s is not the canonical residue of e + x1 modulo n", X)
+		// A == B decides (e + x1) = r modulo n when both sides are canonical residues (a mod(.) term, or a value the path
+		// bounds by 0 <= v < n) whose difference is congruent to +-(e + x1 - r)
+		side := func(t *pt) (*pt, bool) {
+			t = ps.d.normInt(o.st, t)
+			if t.op == "mod" {
+				return t.args[0], true
+			}
+			return t, ps.prove(o, t, token.GEQ, pC(0)) && ps.prove(o, t, token.LSS, pSym("N"))
+		}
+		ia, ca := side(c.a)
+		ib, cb := side(c.b)
+		diff := polyOf(pAdd(ia, pNeg(ib)))
+		want := polyOf(pAdd(pAdd(pVal(eWant), ax), pNeg(pVal(r))))
+		okV := ca && cb && (len(diff.add(want, -1)) == 0 || len(diff.add(want, 1)) == 0)
+		ps.need("VERIFY-VERDICT", okV, "the verdict %s is not equivalent to ((e + x1) mod n) == r: both compared values must be canonical residues whose difference is congruent to e + x1 - r", ps.d.show(o.st, o.vals[0]))
 		// the point
 		PT := ax.args[0]
 		okPt := PT.op == "mixed" && PT.args[0].String() == pVal(s).String()
